@@ -286,6 +286,7 @@ impl Repr {
             }
             Repr::LeaveGroup { group_addr } => {
                 packet.set_msg_type(Message::LeaveGroup);
+                packet.set_max_resp_code(0);
                 packet.set_group_address(group_addr);
             }
         }
